@@ -128,7 +128,12 @@ class RegWorld:
             out = {"status": r.status, "error": (r.body or {}).get("error") if isinstance(r.body, dict) else None,
                    "body": r.body if isinstance(r.body, dict) else None}
         except Exception as e:
-            out = {"raised": type(e).__name__ + ": " + str(e)[:100]}
+            import traceback
+            site = "outside-library"
+            for fr in reversed(traceback.extract_tb(e.__traceback__)):
+                if "/authlib/" in fr.filename:
+                    site = fr.filename.split("/authlib/")[-1] + ":" + fr.name; break
+            out = {"raised": type(e).__name__ + ": " + str(e)[:100], "site": site}
         out["changed"] = self.snapshot() != before
         return out
 
